@@ -20,7 +20,8 @@ def outcome(m, src, pollute_first):
     if pollute_first:
         p = m.Context(time_limit=5)
         try:
-            p.eval("Object.prototype.zzq = 1; Math.zzq = 2; Array.prototype.zzq = 3; var leak = 5; String.zzq = function(){ return 1; };")
+            p.eval("Object.prototype.zzq = 1; Math.zzq = 2; Array.prototype.zzq = 3; var leak = 5; String.zzq = function(){ return 1; }; "
+                   "JSON.zzq = 4; Error.prototype.zzq = 5; Number.zzq = 6; RegExp.zzq = 7; Math.PI2 = 6.28; delete Math.E;")
         except Exception:
             pass
     ctx = m.Context(time_limit=3)
@@ -42,7 +43,19 @@ def outcome(m, src, pollute_first):
         res = ["hang"]
     finally:
         signal.setitimer(signal.ITIMER_VIRTUAL, 0)
-    return [res, log[:200]]
+    # what a *fresh* context looks like to the script after the program ran in it: nothing of
+    # other contexts (earlier programs, the polluting context) may show
+    try:
+        fp = ctx.eval(FINGERPRINT)
+    except BaseException as e:
+        fp = "fingerprint raised " + type(e).__name__
+    return [res, log[:200], fp]
+
+
+FINGERPRINT = (
+    "[typeof Math.zzq, typeof Object.prototype.zzq, typeof Array.prototype.zzq, typeof String.zzq, typeof leak, typeof JSON.zzq, "
+    "typeof Error.prototype.zzq, typeof Number.zzq, typeof RegExp.zzq, typeof ({}).zzq, typeof [].zzq, typeof (function(){}).zzq, typeof Math.PI2, typeof Math.E]"
+)
 
 
 def main():
